@@ -339,3 +339,16 @@ package twig
 //@ func (*Parser).parseIf props: C09
 //@   loop 1 invariant[C09] len(conditions) == len(bodies)
 //@   ensures[C09] err == nil ==> typeIs(ret0, "*IfNode") && len(unboxAs(ret0, "*IfNode").bodies) == len(unboxAs(ret0, "*IfNode").conditions)
+// set: the value expression is evaluated once and bound to the name in the current context
+//@ func (*RenderContext).SetVariable props: C09 C11
+//@   requires ctx.context != nil
+//@   modifies entries(ctx.context)
+//@   ensures has(ctx.context, name) && ctx.context[name] == value
+//@   ensures forall k string :: k != name ==> has(ctx.context, k) == old(has(ctx.context, k)) && (has(ctx.context, k) ==> ctx.context[k] == old(ctx.context[k]))
+//@ func (*SetNode).Render props: C09
+//@   requires ctx.context != nil
+//@   flag rely_tree yes
+//@   ensures[C09] err == nil ==> tr == emitEval(old(tr), n.value, ctx) && has(ctx.context, n.name) && ctx.context[n.name] == evalRes(old(tr), n.value, ctx)
+//@ func (*DoNode).Render props: C09
+//@   flag rely_tree yes
+//@   ensures[C09] err == nil ==> tr == emitEval(old(tr), n.expression, ctx)
